@@ -28,6 +28,11 @@ and expression normal forms from rkstatic/x_symnf.py):
            into the allocation has length n*sizeof(T), a non-null source test guards it, an owning
            array constructed / assigned from a source copies the whole source range, and the copy goes into a block
            allocated on the same path (never into the block that copies of the array and views onto it share).
+Also: for a by-value container owner the view size is the owner's own length - size() of it, the extent it was just
+given, or a value a path condition equates with size(); a caller-chosen size against an owner not resized to it is a
+violation (R-C11-6).  A new-expression is a point where the function can be left by an exception: an existing object
+whose owner was already released / changed at that point is a violation (R-C11-2).  A DataView (re)initialiser that takes
+only the data pointer sets the stride to the dense default; leaving the previous stride is a violation (R-C11-5).
 Calls to helpers (private / static members, members another member forwards to, delegating constructors, free
 functions) are followed: their paths are spliced into the caller's path summary, so the rules see the same events
 whether a statement is written in place or moved into a helper.
@@ -402,6 +407,7 @@ class WrapperAnalysis:
             alias = {}
             did_setptr = {o: False for o in tracked}
             last_call = {}
+            thrown_seen = set()
             mutated = {o: [] for o in tracked}
             copied_from = set()
 
@@ -466,6 +472,20 @@ class WrapperAnalysis:
                 if ev.kind == 'call':
                     last_call[id(ev.node)] = ev
                     name = ev.how or ''
+                    # a new-expression (evaluated as an argument of this call) can throw: if it does, the function is left here, so an
+                    # object that already exists must be consistent at this point
+                    if not f.get('ctor') and owners and find_all(unver(ev.nf) if ev.nf is not None else (), lambda t: t[0] == 'new') \
+                            and ev.node.get('kind') in ('CXXConstructExpr', 'CXXTemporaryObjectExpr', 'CallExpr', 'CXXMemberCallExpr', 'CXXOperatorCallExpr'):
+                        inner_new = [x_ for a_ in (ev.value or ()) for x_ in find_all(unver(a_), lambda t: t[0] == 'new')]
+                        if inner_new and st.get(this) in ('E', 'D') and id(ev.node) not in thrown_seen:
+                            thrown_seen.add(id(ev.node))
+                            dby = dirty_by.get(this)
+                            findings.append(Finding('R-C11-2', 'released-before-throwing-allocation',
+                                                    'the owner member was already %s (`%s`) when `%s` allocates the replacement: if that allocation throws, '
+                                                    'the function is left with the view (pointer, size) still describing the old block - which this array '
+                                                    'no longer keeps alive (freed if it was the only owner)'
+                                                    % ('released' if st.get(this) == 'E' else 'changed', self.tu.show(dby.node) if dby is not None and dby.node else '?',
+                                                       self.tu.show(ev.node)), ev.node))
                     if name == SETPTR:
                         X = ev.place
                         if X in tracked:
@@ -716,10 +736,33 @@ class WrapperAnalysis:
         d = src.get((X, M))
         if ok == 'vec':
             want = ('call', c['fn'].rsplit('::', 1)[0] + '::size', ('field', X, M)) if c.get('fn') else None
-            if c.get('offset') or nu != want:
+            # the extent the owner was given on this path (range / copy / resize), which may be named instead of size()
+            ext = None
+            if d is not None and d[0] == 'range':
+                ext = d[2]
+            elif d is not None and d[0] == 'sized':
+                ext = d[1]
+            elif d is not None and d[0] == 'copy' and isinstance(d[1], tuple):
+                ext = ('call', 'std::vector::size', d[1])
+            same_ext = ext is not None and (nu == ext or (d[0] == 'copy' and isinstance(nu, tuple) and nu[0] == 'call' and last(nu[1]) == 'size' and nu[2] == d[1]))
+            if not c.get('offset') and nu != want and not same_ext and want is not None \
+                    and path.cond_of(tuple(['eq'] + sorted([nu, want], key=repr))) is True:
+                same_ext = True       # the path has just established size argument == owner.size()
+            if c.get('offset') or (nu != want and not same_ext):
                 bad = c.get('offset') or (want is not None and contains(nu, want)) or nu[0] == 'const'
-                findings.append(Finding('R-C11-6', 'view-not-whole-owner', 'view (%s, %s) is not (data(), size()) of the owner `%s`' % (show(pu), show(nu), M),
-                                        ev.node, not bad))
+                why = 'view (%s, %s) is not (data(), size()) of the owner `%s`' % (show(pu), show(nu), M)
+                if not bad and want is not None and find_all(nu, lambda t: t[0] == 'param') and not find_all(nu, lambda t: t[0] in ('call', 'opaque', 'var', 'field')):
+                    # a caller-chosen size against the owner's own length: equal only if the owner was resized to it on this path,
+                    # or a path condition says so
+                    eqc = path.cond_of(tuple(['eq'] + sorted([nu, want], key=repr)))
+                    if eqc is not True:
+                        bad = True
+                        why = ('the view is given `%s` elements, a caller-chosen value, while the owner `%s` keeps its own length (%s) on this path: size() '
+                               'and %s.size() can differ. The members that re-derive the view from %s (copy / move / assignment) then report the '
+                               'owner\'s length again - elements that were cut off reappear'
+                               % (show(nu), M, 'not resized to it here' if d is None else 'it was given `%s`' % show(ext) if ext is not None else 'changed in another way',
+                                  M, M))
+                findings.append(Finding('R-C11-6', 'view-not-whole-owner', why, ev.node, not bad))
                 return
         elif ok in ('sp_alloc', 'up_alloc'):
             if c.get('offset'):
@@ -1295,8 +1338,34 @@ def check_dataview(ctx, tu, tag=''):
                 n += 1
                 a0 = ('param', 0, f['params'][0].get('name') or '') if len(f.get('params', [])) > 0 else None
                 a1 = ('param', 1, f['params'][1].get('name') or '') if len(f.get('params', [])) > 1 else None
-                if a0 is None or a1 is None:
+                if a0 is None or len(f.get('params', [])) > 2:
                     ctx.undecided(R5, inst, 'unexpected parameter list', loc)
+                    continue
+                if a1 is None:
+                    # (re)initialiser that takes only the data pointer: the layout must not be left over from the previous one -
+                    # the stride is set to the dense default sizeof(T) (what the defaulted argument of the two-parameter form gives)
+                    for p in paths:
+                        vals = {}
+                        for e in p.events:
+                            if e.kind in ('store', 'init') and e.place is not None:
+                                vals[e.place] = unver(e.value)
+                        pv = vals.get(ptr)
+                        if isinstance(pv, tuple) and pv and pv[0] == 'cast':
+                            pv = pv[2]
+                        sv = vals.get(stride)
+                        if pv != a0:
+                            (ctx.violation(R5, inst, '`%s` is set to `%s` instead of the data argument' % (pf[0]['name'], show(pv) if pv else 'nothing'), loc,
+                                           key='%s|%s|%s|data-not-stored' % (R5, file, pname)) if pv is None or not find_all(pv, lambda t: t[0] in ('opaque', 'call', 'var'))
+                             else ctx.undecided(R5, inst, '`%s` is set to `%s`' % (pf[0]['name'], show(pv)), loc))
+                        elif sv is None and not f.get('ctor'):
+                            ctx.violation(R5, inst, '%s(%s) re-points the view but leaves `%s` as it was: the element offsets index*%s then depend on the layout '
+                                          'the view had before (a view once given an explicit stride keeps it), instead of the dense default sizeof(T)'
+                                          % (name, f['params'][0].get('name') or 'data', sf[0]['name'], sf[0]['name']), loc,
+                                          key='%s|%s|%s|stride-carried-over' % (R5, file, pname))
+                        elif sv is None or (isinstance(sv, tuple) and sv[0] == 'sizeof' and sv[2] == et.get('size')) or sv == ('const', et.get('size')):
+                            ctx.ok(R5, inst, 'stores the data pointer; stride is the dense default', loc)
+                        else:
+                            ctx.undecided(R5, inst, '`%s` is set to `%s`, not recognised as the dense default sizeof(T)' % (sf[0]['name'], show(sv)), loc)
                     continue
                 for p in paths:
                     vals = {}
@@ -1311,10 +1380,17 @@ def check_dataview(ctx, tu, tag=''):
                     probs = []
                     if pv != a0:
                         probs.append(('data-not-stored', '`%s` is set to `%s` instead of the data argument' % (pf[0]['name'], show(pv) if pv else 'nothing')))
+                    unds = []
                     if vals.get(stride) != a1:
                         sv = vals.get(stride)
-                        probs.append(('stride-not-stored', '`%s` is set to `%s` instead of the stride argument' % (sf[0]['name'], show(sv) if sv else 'nothing')))
-                    if probs:
+                        if sv is None or (isinstance(sv, tuple) and sv[0] in ('const', 'sizeof')) or sv == a0:
+                            probs.append(('stride-not-stored', '`%s` is set to `%s` instead of the stride argument' % (sf[0]['name'], show(sv) if sv else 'nothing')))
+                        else:
+                            unds.append('`%s` is set to `%s`, which is not recognised as the stride argument' % (sf[0]['name'], show(sv)))
+                    if unds and not probs:
+                        for u in unds:
+                            ctx.undecided(R5, inst, u, loc)
+                    elif probs:
                         for kind, why in probs:
                             ctx.violation(R5, inst, why, loc, key='%s|%s|%s|%s' % (R5, file, pname, kind))
                     else:
@@ -1527,7 +1603,8 @@ def run(ctx):
                'offset + size within the viewed array')
     ctx.assume('std::vector, std::shared_ptr, std::array behave as documented (data()/size() of a vector stay valid until the next '
                'non-const operation on it; a shared_ptr keeps its pointee alive)')
-    ctx.assume('exceptions thrown by allocation are not modelled (no exception edges)')
+    ctx.assume('exceptions: only new-expressions are modelled as points where a member can be left early; container operations are '
+               'taken to give the strong guarantee')
     jobs = [dict(unit='drivers/c11_arrays.cpp', config='TBB')]
     if ctx.tier == 'thorough':
         jobs.append(dict(unit='drivers/c11_arrays.cpp', config='TBB', std='gnu++17', extra=('-DRKVERIF_C11_WIDE',)))
